@@ -28,7 +28,7 @@ SPEC = dict(
     component="peers",
     props_module="Refinery.Props.C18",
     gen_module="Refinery.Gen.Peers",
-    quick=dict(cases=400, len=60, shards=4),
+    quick=dict(cases=320, len=60, shards=4),
     thorough=dict(cases=24000, len=80, shards=16),
     nontrivial=nontrivial,
     rule="cases = (85%) timed cluster histories on 2-5 real RedisPubsubPeers in one process: node start, refresh ticks of the real "
